@@ -38,7 +38,7 @@ MIN_COUNTERS = {'roundtrips_aegean_reader': 100, 'roundtrips_direct_reader': 50,
                 'origin_hand': 5, 'origin_reload_csv': 3, 'origin_reload_fits': 2, 'origin_finder': 1,
                 'files_checked': 100, 'first_row_atypical_catalogues': 3, 'overwrites': 50, 'sequence_writes': 200, 'sequence_writes_sqlite': 80,
                 'text_files_over_1MiB': 5, 'text_files_over_1MiB_csv': 2, 'text_files_over_1MiB_tab': 2,
-                'spelled_extension_writes': 40, 'cells_float32_attribute': 500, 'shared_object_catalogues': 4,
+                'spelled_extension_writes': 40, 'cells_blank_string': 200, 'cells_blank_string_identity': 80, 'cells_float32_attribute': 500, 'shared_object_catalogues': 4,
                 'object_attributes_rechecked': 2000, 'container_generator': 2, 'container_filter': 2, 'container_chain': 2,
                 'container_iterator': 2, 'container_tuple': 2, 'container_ndarray': 2, 'cells_double_exact_compared': 10000}
 BATCHES_PER_JOB = 4
@@ -244,6 +244,21 @@ def _hand_catalogue(case, rng):
                     elif i % 4 == 2:
                         setattr(s, nme, np.float64(v))
             cat.append(s)
+    elif recipe == 'blank_strings':
+        # '' is the constructors' default for ra_str/dec_str (hand-made sources, user tables); uuid may be blank too
+        mode = case['blank']
+        for key in case.get('mix', ['comp', 'isle', 'simp']):
+            for i in range(6):
+                s = _make(cl[key], rng, typical, i)
+                hit = {'some': i in (1, 4), 'first': i == 0, 'all': True, 'last': i == 5}[mode]
+                if hit:
+                    if hasattr(s, 'ra_str'):
+                        s.ra_str, s.dec_str = '', ''
+                    if case.get('blank_uuid') and (mode != 'all'):
+                        s.uuid = ''
+                if mode == 'some' and i == 2 and hasattr(s, 'ra_str'):
+                    s.ra, s.ra_str = float('nan'), ''            # blank string with a NaN position
+                cat.append(s)
     elif recipe == 'clean':
         # no NaN, strings of constant width: used as the basis of the FITS re-load origin
         for i in range(case.get('n', 30)):
@@ -437,6 +452,20 @@ def _cmp_cell(o, fmt, how, name, exp, got, ctx):
         w.update(kw)
         return w
 
+    if isinstance(exp, str) and exp == '':
+        # a blank (but present) string: VOTable and sqlite keep it as '', the text formats and FITS have no way to tell
+        # blank from missing (it is read back as a missing cell) - but nothing may be invented in its place
+        o.count('cells_blank_string')
+        blank = (isinstance(got, str) and str(got) == '')
+        missing = got is None or got is np.ma.masked or (isinstance(got, (float, np.floating)) and np.isnan(got))
+        if fmt in ('vot', 'xml') or how == 'sqlite':
+            o.count('cells_blank_string_identity')
+            ok = blank or (how == 'direct' and missing)
+        else:
+            ok = blank or missing
+        if not ok:
+            _viol(o, 'blank_string_cell', wit())
+        return
     if isinstance(exp, str):
         o.count('cells_str')
         if not (isinstance(got, str) and str(got) == str(exp)):
@@ -723,6 +752,16 @@ def cases(seed, tier):
         add('hand', recipe='random', n=7, mix=['comp', 'isle', 'simp'], every_type=True, container=cont,
             seed=[0, 'container', cont])
         add('reload_csv', recipe='random', n=2, mix=['comp'], container=cont, variants=('plain',), seed=[0, 'container1', cont])
+    # blank-but-present strings (an entirely blank string column cannot be written to FITS by the unchanged code:
+    # observation outside the statement, FITS is left out for those)
+    for mode in ('some', 'first', 'last', 'all'):
+        fm = [f for f in TABLE_FORMATS + DB_FORMATS if not (mode == 'all' and f == 'fits')]
+        add('hand', recipe='blank_strings', blank=mode, formats=fm, seed=[0, 'blank', mode])
+        if mode != 'all':
+            add('hand', recipe='blank_strings', blank=mode, blank_uuid=True, formats=fm, variants=('plain',),
+                seed=[0, 'blank-uuid', mode])
+    add('hand', recipe='blank_strings', blank='all', mix=['comp'], formats=['vot', 'xml', 'db', 'csv'], variants=('plain',),
+        seed=[0, 'blank', 'all', 'comp'])
     # size strata: text files well over 1 MiB (readers may switch strategy with size), compared exactly
     add('hand', recipe='random', n=3000, mix=['comp'], formats=['csv', 'tab', 'tex'], variants=('plain',),
         p_nan=0.03, p_extreme=0.3, seed=[0, 'big', 'comp', 3000])
